@@ -104,6 +104,10 @@ pub struct SddRun<'a, B: SddBuilder<'a>> {
     pub pool: Vec<(SddPtr<'a>, Tt)>,
     /// labels usable in this builder (the vtree's leaves)
     pub labels: Vec<usize>,
+    /// when set, the next AndDisjoint / OrDisjoint op uses these two pool entries instead of searching the pool
+    /// (replays of a recorded history must repeat the recorded operands: the search looks at how entries are
+    /// represented, which may differ between two builders)
+    pub forced_operands: Option<(usize, usize)>,
 }
 
 impl<'a, B: SddBuilder<'a>> SddRun<'a, B> {
@@ -114,7 +118,7 @@ impl<'a, B: SddBuilder<'a>> SddRun<'a, B> {
         for v in sorted.iter() {
             pool.push((b.var(VarLabel::new_usize(*v), true), Tt::var(*v)));
         }
-        SddRun { b, pool, labels: sorted }
+        SddRun { b, pool, labels: sorted, forced_operands: None }
     }
 
     fn at(&self, i: u16) -> usize {
@@ -188,17 +192,22 @@ impl<'a, B: SddBuilder<'a>> SddRun<'a, B> {
                     SOp::AndDisjointNeg(_, _, a, b) | SOp::OrDisjointNeg(_, _, a, b) => (*a, *b),
                     _ => (false, false),
                 };
-                let x = self.at(*x);
+                let mut x = self.at(*x);
                 let start = self.at(*y);
                 let sx = self.pool[x].1.support();
                 let n = self.pool.len();
                 let mut y = start;
-                for k in 0..n {
-                    let c = (start + k) % n;
-                    let (p, t) = self.pool[c];
-                    if sdd_is_internal(p) && t.support().iter().all(|v| !sx.contains(v)) {
-                        y = c;
-                        break;
+                if let Some((fx, fy)) = self.forced_operands.take() {
+                    x = fx;
+                    y = fy;
+                } else {
+                    for k in 0..n {
+                        let c = (start + k) % n;
+                        let (p, t) = self.pool[c];
+                        if sdd_is_internal(p) && t.support().iter().all(|v| !sx.contains(v)) {
+                            y = c;
+                            break;
+                        }
                     }
                 }
                 let (px, tx) = if negx { (b.negate(self.pool[x].0), self.pool[x].1.not()) } else { self.pool[x] };
